@@ -248,4 +248,17 @@ def collectUsed (frags : List (List Nat)) (ops : List (List Nat)) : List Nat :=
 def unusedCount (frags : List (List Nat)) (ops : List (List Nat)) : Nat :=
   ((List.range frags.length).filter fun j => !(collectUsed frags ops).contains j).length
 
+/-! ### `validated_fragments` (validation/fragment.rs `validate_fragment_spread`)
+Each operation is validated with its own `OperationValidationContext`, whose `validated_fragments`
+set starts empty: a fragment definition is validated (against THAT operation's variable definitions)
+the first time the operation reaches it — the same de-duplicated walk as `collectUsed`, per operation. -/
+
+/-- for every operation, the fragment definitions validated in its context -/
+def validatedPerOperation (frags : List (List Nat)) (ops : List (List Nat)) : List (List Nat) :=
+  ops.map fun op => collectUsed frags [op]
+
+/-- number of (operation, fragment definition) validations -/
+def validationCount (frags : List (List Nat)) (ops : List (List Nat)) : Nat :=
+  ((validatedPerOperation frags ops).map List.length).sum
+
 end Apollo.ExecVal
